@@ -4,6 +4,7 @@ pub mod c01;
 pub mod c02;
 pub mod c04;
 pub mod c05;
+pub mod c06;
 pub mod c17;
 pub mod execs;
 pub mod c09;
@@ -11,7 +12,7 @@ pub mod c10;
 pub mod c11;
 
 pub fn all() -> Vec<Box<dyn Prop>> {
-    vec![Box::new(c01::C01), Box::new(c02::C02), Box::new(c04::C04), Box::new(c05::C05), Box::new(c17::C17), Box::new(c09::C09), Box::new(c10::C10), Box::new(c11::C11)]
+    vec![Box::new(c01::C01), Box::new(c02::C02), Box::new(c04::C04), Box::new(c05::C05), Box::new(c06::C06), Box::new(c17::C17), Box::new(c09::C09), Box::new(c10::C10), Box::new(c11::C11)]
 }
 
 /// Developer utilities (`verif dbg <what> ...`).
